@@ -47,6 +47,7 @@ type RunCtx struct {
 	Inconclusive string
 	Pairs        map[string]struct{}
 	Leaked       int
+	FullTrace    string
 }
 
 func (rc *RunCtx) Count(name string, n int) {
@@ -67,6 +68,9 @@ func (rc *RunCtx) Violate(class, format string, args ...any) {
 // AbsorbSim copies the simulator's measurements into the run context.
 func (rc *RunCtx) AbsorbSim(s *sim.Sim, strategy string) {
 	rc.Digest ^= s.Digest()
+	if os.Getenv("VERIF_DUMP_TRACE") != "" {
+		rc.FullTrace = s.RenderTrace(1 << 30)
+	}
 	rc.Steps += s.Step
 	rc.SimTime += s.Now()
 	rc.Strategy = strategy
